@@ -76,11 +76,15 @@ class Scen:
         self.close_task = None
         self.result = [None] * self.n
         self.timeout = ClientTimeout(connect=case.get("connect_timeout"))
+        # tasks listed in case["late"] call connect() only when the environment says so
+        self.starts = [loop.create_future() if i in case.get("late", ()) else None for i in range(self.n)]
         self.tasks = [loop.create_task(self.client(i)) for i in range(self.n)]
         self.reused = 0
 
     # ---- the application -------------------------------------------------
     async def client(self, i):
+        if self.starts[i] is not None:
+            await self.starts[i]
         self.phase[i] = "connecting"
         try:
             conn = await self.conn.connect(_Req(key(self.hosts[i])), [], self.timeout)
@@ -144,6 +148,10 @@ class Scen:
             if self.phase[i] == "holding" and h is not None and not h.done():
                 mode = self.modes[i]
                 m.append((f"{mode}.t{i}", lambda h=h, mode=mode: h.done() or h.set_result(mode)))
+        for i in range(self.n):
+            st = self.starts[i]
+            if st is not None and not st.done():
+                m.append((f"start.t{i}", lambda st=st: st.done() or st.set_result(None)))
         return m
 
     def faults(self):
@@ -247,6 +255,13 @@ def cases(quick):
     out.append({"tasks": 3, "hosts": [0, 0, 0], "limit": 1, "per_host": 0, "faults": ["cancel"], "connect_timeout": 3})
     out.append({"tasks": 2, "hosts": [0, 0], "limit": 1, "per_host": 0, "faults": ["cancel", "close"], "force_close": True})
     out.append({"tasks": 3, "hosts": [0, 0, 0], "limit": 2, "per_host": 0, "faults": ["cancel", "altmode"], "modes": ["close", "release", "close"]})
+    # late starters: a request that arrives while others hold / have released connections
+    # (idle pooled connections of another key, a free slot next to a queue of waiters)
+    for hosts in ([0, 0, 0], [0, 0, 1], [0, 1, 0], [1, 0, 1]):
+        for lim, per in [(1, 0), (2, 0), (1, 1)]:
+            for late in ([2], [1, 2]):
+                out.append({"tasks": 3, "hosts": hosts, "limit": lim, "per_host": per, "faults": ["cancel", "altmode"],
+                            "reverse": False, "late": late})
     if not quick:
         for hosts in host_maps[4]:
             for lim, per in [(1, 0), (2, 1), (2, 0)]:
